@@ -208,8 +208,8 @@ class LocationTableEntry:
         self.update_position_vector(position_vector)
         # step 5
         self.update_pdr(position_vector, (len(packet) + 8 + 4))
-        # step 6
-        self.is_neighbour = False
+        # step 6: IS_NEIGHBOUR is FALSE for a new entry (its initial value) and
+        # unchanged for an existing one (NOTE 1 of §10.3.11.3)
 
     def check_duplicate_sn(self, sn: int) -> None:
         """
